@@ -60,7 +60,7 @@ const Comp COMPS[] = {
 // on <= a few hundred elements and takes microseconds; one that burns CPU_LIMIT_S seconds of the case thread's
 // own CPU time without completing is reported as non-returning, and the process exits with the HANG code so
 // that the driver restarts after the case.
-constexpr double CPU_LIMIT_S = 3.0;
+constexpr double CPU_LIMIT_S = 2.0;
 std::atomic<bool> g_stopWatch{false};
 std::atomic<const char*> g_curComponent{""};
 std::atomic<Case*> g_curCase{nullptr}; // its history is read only while the case thread is stuck
@@ -90,7 +90,10 @@ void cpuWatchdog(verif::Harness* H, pthread_t caseThread) {
       memcpy(op, g_curOp, sizeof op);
       op[sizeof op - 1] = 0;
       Case* cc = g_curCase.load();
-      H->violation(std::string("C14:") + g_curComponent.load() + ":does-not-return-after-" + op,
+      char ctx[sizeof g_checkCtx];
+      memcpy(ctx, g_checkCtx, sizeof ctx);
+      ctx[sizeof ctx - 1] = 0;
+      H->violation(std::string("C14:") + g_curComponent.load() + ":" + (ctx[0] ? ctx : "does-not-return") + "-after-" + op,
                    J().kv("kind", "operation (or the traversal after it) did not return")
                        .kv("thread_cpu_seconds_without_completing", cpu - cpuAtSeq).kv("operation", op)
                        .kv("config", cc ? cc->cfg : "").kv("history", cc ? cc->history() : "").str());
@@ -189,8 +192,12 @@ void fatalReport(const char* fallback) {
         ++nl;
       }
     std::string cls = classify(txt, fallback);
-    H->violation(std::string("C14:") + g_curComponent.load() + ":" + cls + "-after-" + op,
-                 J().kv("kind", "fatal error inside the case").kv("class", cls).kv("operation", op)
+    char ctx[sizeof g_checkCtx];
+    memcpy(ctx, g_checkCtx, sizeof ctx);
+    ctx[sizeof ctx - 1] = 0;
+    H->violation(std::string("C14:") + g_curComponent.load() + ":" + (ctx[0] ? std::string(ctx) : cls) + "-after-" + op,
+                 J().kv("kind", "fatal error inside the case").kv("class", cls).kv("while_evaluating_check", ctx)
+                     .kv("operation", op)
                      .kv("config", cc ? cc->cfg : "").kv("history", cc ? cc->history() : "").kv("stderr", excerpt).str());
   }
   H->line(J().kv("ev", "hang_exit").kv("case", H->curCase).str());
